@@ -58,6 +58,8 @@ CLASSES = {
                               "src": ("models.observation", "MultiAgentObservation")},
     "TrajectoryParser": {"fields": {"partial_domain": ("ref", "Domain"), "problem": ("ref", "Problem"), "logger": ("ref", "opaque")}, "bases": [],
                          "src": ("lisp_parsers.trajectory_parser", "TrajectoryParser")},
+    "PlanConverter": {"fields": {"ma_domain": ("ref", "Domain"), "logger": ("ref", "opaque")}, "bases": [],
+                      "src": ("multi_agent.single_agent_plan_converter", "PlanConverter")},
     "Path": {"fields": {"stem": "str"}, "bases": [], "lib": True},
     "MultiAgentDomainsConverter": {"fields": {"logger": ("ref", "opaque"), "domains_directory_path": ("ref", "Path")}, "bases": [],
                                    "src": ("multi_agent.multi_agent_domain_converter", "MultiAgentDomainsConverter")},
